@@ -61,6 +61,27 @@ CHECKS["C19"] = steps("C19", "model_checking",
     "TLC explores every interleaving, at storage-call granularity, of two and three in-flight requests on overlapping credentials (MCSteps ScnConc2/ScnConc3) and checks HandedOutActiveOrKilledByPeer / MintFresh / refinement of the sequential design; the schedules (all of them at thorough, a seeded sample at quick) are forced on real goroutines through the storage gate and every step is validated: the handler called the storage method the spec names, the call had exactly the specified atomic effect on the store, results and final activity agree. Outside the specification (a TLA+ model cannot see a missing lock) the same harness runs free under the Go race detector with default-constructed and fully populated configurations, a watchdog and recover.",
     "DESIGN.md 6 C19", "TLA+ step-level spec model-checked with TLC; TLC-generated schedules forced on real goroutines; traces validated with TLC (TraceSteps); Go race detector for the memory-level clause")
 
+TABLE_NOTE = ("Trusted: TLC 1.8 (evaluates the decision specification and its ASSUMEd relations on the complete bounded domain and "
+              "writes the table with the CommunityModules Json module); the harness code that renders structured inputs to strings / "
+              "HTTP requests / signed JWTs and decodes the outputs (self-test: rows with flipped expectations must be reported). "
+              "The input domain is bounded as written in the specification; nothing is claimed outside it.")
+
+def table(pid, what, ref):
+    return {
+        "property_id": pid,
+        "quick_cmd": f"bin/check {pid} --tier quick",
+        "thorough_cmd": f"bin/check {pid} --tier thorough",
+        "evidence_file": f"evidence/{pid}.json",
+        "replay_cmd_template": f"bin/check {pid} --replay {{path}}",
+        "engine": "tla-tables",
+        "level_claimed": {"category": "model_checking", "design_ref": ref, "text": what},
+        "level_note": TABLE_NOTE,
+        "technique": "TLA+ decision specification enumerated completely by TLC into an input->expected-verdict table; every row executed on the real code (model-based test generation from the specification)",
+    }
+
+CHECKS["C11"] = table("C11", "TblRedirect.tla states when a redirect to a requested URI is allowed (string-identical to a registered URI, or http + loopback literal + same host/path/query; absolute; no own fragment) over URI records; TLC enumerates every registered set x every one- (thorough: two-) component near-miss of a registered URI x response type x response mode x kind of request error; every row is rendered to strings and driven through NewAuthorizeRequest / NewAuthorizeResponse / WriteAuthorizeResponse / WriteAuthorizeError, and the Location header or form action is compared (redirected => allowed, target = requested, no code over plain http to a non-local host).", "DESIGN.md 6 C11")
+CHECKS["C12"] = table("C12", "TblScope.tla transcribes the documented rules of the three scope strategies and two audience strategies; TLC enumerates all pattern/needle pairs over the segment alphabet {a,b,*,empty} up to 3 (thorough 4) segments, all URL pairs of the bounded URL domain, and the confinement table flow x strategy x registration x request for all nine flows; the real strategy functions are called on every row and every flow is driven with every out-of-policy request (accept/refuse, error class, scopes/audience of issued tokens).", "DESIGN.md 6 C12")
+
 NOT_YET = "check not built yet in this session (planned, see DESIGN.md section 10); nothing is claimed"
 
 def main():
@@ -83,6 +104,9 @@ def main():
             {"name": "tla-steps", "path": "spec/Steps.tla spec/MCSteps.tla spec/TraceSteps.tla lib/steps.py harness/steps.go harness/store.go",
              "serves_properties": sorted(k for k, v in checks.items() if v.get("engine") == "tla-steps"),
              "kind_free_text": "step-level refinement of the spec (one storage call per step); TLC enumerates interleavings and fault placements; schedules forced on the real code through a storage gate; TLC trace validation"},
+            {"name": "tla-tables", "path": "spec/Tbl*.tla lib/tables.py harness/table_*.go harness/tables_test.go",
+             "serves_properties": sorted(k for k, v in checks.items() if v.get("engine") == "tla-tables"),
+             "kind_free_text": "decision specifications in TLA+ enumerated by TLC into tables; rows concretised and executed on the real code"},
         ] + extra.get("engines", []),
         "checks": [checks[k] for k in sorted(checks)],
         "not_applicable": [{"property_id": k, "reason": extra.get("na", {}).get(k, NOT_YET)} for k in ALL if k not in checks],
